@@ -193,6 +193,144 @@ def gen_hist(rng, tier, mode="std", nvdim=None, bad=False):
                 norm0=norm0, v0=v0, ops=ops, bad=bad)
 
 
+NEAR_DELTAS = [F(1, 2 ** 50), F(1, 2 ** 40), F(1, 2 ** 30), F(1, 2 ** 23), F(1, 2 ** 20), F(3, 2 ** 20)]
+ABS_DELTAS = [F(1, 2 ** 10), F(1, 2 ** 9), F(1, 2 ** 8)]      # |n*delta| < 1e-8 for n of a few 1e-6
+
+
+def variant(rng, v):
+    """same length, other direction: permuted components with random signs"""
+    w = list(v)
+    rng.shuffle(w)
+    return [x * rng.choice([-1, 1]) for x in w]
+
+
+def gen_near(rng, tier):
+    """every cell already has a length within delta (relative) of the target it is then given: a drift of
+    delta has to be corrected by the assignment, for each kind of specification"""
+    p1, p2, n = gen_mesh(rng, tier)
+    ncell = math.prod(n)
+    k = rng.choice([1, 2, 3, 3, 4])
+    sk = rng.choice(["const", "arr", "affine", "step"])
+    regime = rng.choice(["tiny", "mid", "mid", "mid", "large", "huge"])
+    e = {"tiny": -19, "mid": rng.choice([-3, 0, 0, 1, 7]), "large": 60, "huge": rng.choice([480, 489])}[regime]
+    deltas = NEAR_DELTAS + (ABS_DELTAS if regime == "tiny" else [])
+    d_case = rng.choice(deltas) * rng.choice([-1, 1])
+    same_delta = rng.random() < 0.6
+
+    def delta():
+        return d_case if same_delta else rng.choice(deltas) * rng.choice([-1, 1])
+
+    def near(x):
+        """binary64 number next to x*(1+delta)"""
+        return F(float(x * (1 + delta())))
+
+    sc = F(2) ** e
+    if sk == "const":
+        base = pyth(rng, k, big=3 if regime == "tiny" else 6)
+        L = F(math.isqrt(sum(x * x for x in base))) * sc
+        cells = [[F(x) * sc for x in variant(rng, base)] for _ in range(ncell)]
+        spec = dict(kind="const", t=S(near(L)), form=rng.choice(["float", "npfloat"]))
+    elif sk == "arr":
+        cells, ts = [], []
+        for _ in range(ncell):
+            if rng.random() < 0.1:
+                cells.append([F(0)] * k)
+                ts.append(F(0))
+                continue
+            v = pyth(rng, k, big=3 if regime == "tiny" else 6)
+            cells.append([F(x) * sc for x in v])
+            ts.append(near(F(math.isqrt(sum(x * x for x in v))) * sc))
+        spec = dict(kind="arr", ts=[S(t) for t in ts], form=rng.choice(["n", "n1", "list_n"]))
+    elif sk == "step":
+        ax = rng.randrange(len(n))
+        spec = fix_step(dict(kind="step", ax=ax, x0=None, lo="0/1", hi="0/1"), p1, p2, n, rng)
+        b_lo, b_hi = pyth(rng, k, big=3 if regime == "tiny" else 6), pyth(rng, k, big=3 if regime == "tiny" else 6)
+        L_lo = F(math.isqrt(sum(x * x for x in b_lo))) * sc
+        L_hi = F(math.isqrt(sum(x * x for x in b_hi))) * sc
+        spec["lo"], spec["hi"] = S(near(L_lo)), S(near(L_hi))
+        lo_c = [min(F(a), F(b)) for a, b in zip(p1, p2)]
+        cw = [abs(F(b) - F(a)) / m for a, b, m in zip(p1, p2, n)]
+        cells = []
+        for idx in np.ndindex(*n):
+            x = lo_c[ax] + (idx[ax] + F(1, 2)) * cw[ax]
+            cells.append([F(c) * sc for c in variant(rng, b_lo if x < F(spec["x0"]) else b_hi)])
+    else:
+        # affine target (>= 1 everywhere); axis-aligned vectors whose length is the binary64 number next
+        # to target*(1+delta)
+        spec = dict(kind="affine", c0=S(F(rng.randint(4, 48), 4)), cs=[S(F(rng.randint(-8, 8), 4)) for _ in n])
+        lo_c = [min(F(a), F(b)) for a, b in zip(p1, p2)]
+        cw = [abs(F(b) - F(a)) / m for a, b, m in zip(p1, p2, n)]
+        pts = [[l + (i + F(1, 2)) * c for l, i, c in zip(lo_c, idx, cw)] for idx in np.ndindex(*n)]
+        tv = [F(spec["c0"]) + sum(F(c) * x for c, x in zip(spec["cs"], p)) for p in pts]
+        if min(tv) < 1:
+            spec["c0"] = S(F(spec["c0"]) + 1 - min(tv))
+            tv = [t + 1 - min(tv) for t in tv]
+        cells = []
+        for t in tv:
+            c = [F(0)] * k
+            c[rng.randrange(k)] = near(t) * rng.choice([-1, 1])
+            cells.append(c)
+    in_ctor = rng.random() < 0.4
+    ops = [] if in_ctor else [dict(op="setnorm", spec=spec)]
+    if rng.random() < 0.3:
+        ops.append(dict(op="validnorm"))
+    vr = rng.random()
+    v0 = dict(kind="all", form="default") if vr < 0.5 else (
+        dict(kind="arr", l=[rng.random() < 0.7 for _ in range(ncell)]) if vr < 0.8 else dict(kind="norm"))
+    return dict(kind="hist", mode="near", p1=p1, p2=p2, n=n, nvdim=k, unit=rng.choice(UNITS), vals=flat(cells),
+                norm0=spec if in_ctor else None, v0=v0, ops=ops, bad=False, near=dict(spec=sk, regime=regime))
+
+
+INT_DTYPES = ["int8", "int16", "int32", "int64", "uint8", "uint16", "uint32", "uint64"]
+
+
+def int_cell(rng, k, dtype):
+    """integer vector with an integer length whose largest component lies between sqrt(max) and max of
+    the dtype (its square does not fit the dtype), sometimes small or zero"""
+    info = np.iinfo(np.dtype(dtype))
+    r = rng.random()
+    if r < 0.12:
+        return [0] * k
+    v = pyth(rng, k, big=2 if info.max < 300 else 4)
+    top = max(abs(x) for x in v)
+    if info.max // top < 1:
+        v = [0] * (k - 1) + [rng.randint(1, info.max)]
+        rng.shuffle(v)
+        top = max(v)
+    lo = math.isqrt(info.max) + 1
+    if r < 0.25:
+        m = 1
+    else:
+        hi = info.max if rng.random() < 0.5 else min(info.max, 2 ** 53)
+        target = int(math.exp(rng.uniform(math.log(lo), math.log(hi))))
+        m = max(1, min(target // top, info.max // top))
+    v = [x * m for x in v]
+    if info.min == 0:
+        v = [abs(x) for x in v]
+    return v
+
+
+def gen_intfield(rng, tier):
+    """integer-typed fields: norm getter, orientation, valid = 'norm', updates (no norm assignment)"""
+    p1, p2, n = gen_mesh(rng, tier)
+    ncell = math.prod(n)
+    k = rng.choice([1, 2, 3, 3, 4])
+    dt = rng.choice(INT_DTYPES)
+    vals = [S(x) for _ in range(ncell) for x in int_cell(rng, k, dt)]
+    ops = []
+    for _ in range(rng.choice([0, 0, 1, 2])):
+        if rng.random() < 0.6:
+            ops.append(dict(op="update", vals=[S(x) for _ in range(ncell) for x in int_cell(rng, k, dt)],
+                            form=rng.choice(["array", "update_array_attr"])))
+        else:
+            ops.append(dict(op="validnorm"))
+    vr = rng.random()
+    v0 = dict(kind="all", form="default") if vr < 0.35 else (
+        dict(kind="arr", l=[rng.random() < 0.7 for _ in range(ncell)]) if vr < 0.6 else dict(kind="norm"))
+    return dict(kind="hist", mode="int", p1=p1, p2=p2, n=n, nvdim=k, unit=rng.choice(UNITS), vals=vals,
+                norm0=None, v0=v0, ops=ops, bad=False, dtype=dt)
+
+
 def rnd_float(rng, lo_exp, hi_exp):
     return rng.uniform(1, 10) * 10.0 ** rng.randint(lo_exp, hi_exp) * rng.choice([-1, 1])
 
@@ -260,6 +398,10 @@ def generate(rng, tier):
         cases.append(gen_hist(rng, tier, "std", bad=True))
     for _ in range(160 if quick else 4000):
         cases.append(gen_rel(rng, tier))
+    for _ in range(90 if quick else 1500):
+        cases.append(gen_near(rng, tier))
+    for _ in range(50 if quick else 800):
+        cases.append(gen_intfield(rng, tier))
     for _ in range(3):
         cases.append(gen_intdtype(rng))
     for _ in range(3):
@@ -275,7 +417,9 @@ def mk_mesh(c):
     return df.Mesh(p1=[fl(x) for x in c["p1"]], p2=[fl(x) for x in c["p2"]], n=c["n"])
 
 
-def arr_of(vals, n, k):
+def arr_of(vals, n, k, dtype=None):
+    if dtype:
+        return np.array([int(F(x)) for x in vals], dtype=np.dtype(dtype)).reshape(*n, k)
     return np.array([fl(x) for x in vals], dtype=float).reshape(*n, k)
 
 
@@ -376,7 +520,8 @@ def scaled_ok(v, v2, t, tol=F(1, 10 ** 12)):
 
 
 def cells_frac(a, k):
-    return [[F(x) for x in row] for row in np.asarray(a, dtype=float).reshape(-1, k).tolist()]
+    """cells as exact Fractions (integer dtypes are NOT routed through float)"""
+    return [[F(x) for x in row] for row in np.asarray(a).reshape(-1, k).tolist()]
 
 
 def oracle_setnorm(before, after, ts, out):
@@ -414,7 +559,7 @@ def oracle_views(f, out):
     tol = F(1, 10 ** 12)
     for v, nn in zip(cells, nv):
         s = sumsq(v)
-        if k == 1 and nn != abs(v[0]):
+        if k == 1 and abs(nn - abs(v[0])) > F(1, 10 ** 15) * abs(v[0]):
             out.append("scalar-norm-not-abs")
         if nn < 0 or abs(nn * nn - s) > 2 * tol * s:
             out.append("norm-not-euclidean-length")
@@ -466,7 +611,10 @@ def run_hist(c):
         kw["valid"] = None
     elif v0["form"] == "True":
         kw["valid"] = True
-    init_arr = arr_of(c["vals"], n, k)
+    dt = c.get("dtype")
+    if dt:
+        kw["dtype"] = np.dtype(dt)
+    init_arr = arr_of(c["vals"], n, k, dt)
     if c["norm0"] is not None:
         kw["norm"] = py_spec(c["norm0"], n)
     st, f = attempt(lambda: df.Field(mesh, nvdim=k, value=init_arr.copy(), unit=c["unit"], **kw))
@@ -499,7 +647,7 @@ def run_hist(c):
                 oracle_setnorm(cells_frac(before, k), cells_frac(f.array, k), spec_values(o["spec"], mesh), out)
             elif o["op"] == "update":
                 try:
-                    new = arr_of(o["vals"], n, k)
+                    new = arr_of(o["vals"], n, k, dt)
                 except ValueError:
                     new = np.array([fl(x) for x in o["vals"]], dtype=float).reshape(-1, k)
                 if o["form"] == "array" or new.shape != (*n, k):
@@ -555,7 +703,8 @@ def run_hist(c):
     rec["tags"] = sorted(set(rec["tags"]))
     nzero = sum(1 for j in range(0, len(c["vals"]), k) if all(F(x) == 0 for x in c["vals"][j:j + k]))
     skinds = "".join((o.get("spec", {}).get("kind", o["op"])[0]) for o in c["ops"])
-    rec["key"] = (f'hist/{c["mode"]}/{len(n)}d/{k}/{(c["norm0"] or {}).get("kind")}/{v0["kind"]}/{skinds}/'
+    extra = c.get("dtype") or (c.get("near") or {}).get("regime", "")
+    rec["key"] = (f'hist/{c["mode"]}{extra}/{len(n)}d/{k}/{(c["norm0"] or {}).get("kind")}/{v0["kind"]}/{skinds}/'
                   f'z{min(nzero, 2)}/{"rej" if rejected else "ok"}/{hash(tuple(c["vals"])) % 7}')
     rec["size"] = len(c["vals"]) * (1 + len(c["ops"]))
     rec["nontrivial"] = bool(nsetnorm or nzero or c["mode"] != "std")
@@ -662,6 +811,8 @@ def stats(records):
             out["setnorm_ops"] += sum(1 for o in c["ops"] if o["op"] == "setnorm")
             out["update_ops"] += sum(1 for o in c["ops"] if o["op"] == "update")
             out["subthreshold_or_threshold"] += int(c["mode"] in ("sub", "thr"))
+            out["near_target"] = out.get("near_target", 0) + int(c["mode"] == "near")
+            out["integer_dtype"] = out.get("integer_dtype", 0) + int(c["mode"] == "int")
             out["constructor_norm"] += int(c["norm0"] is not None)
             out["valid_norm"] += int(c["v0"]["kind"] == "norm")
         elif c["kind"] == "rel":
